@@ -1,7 +1,7 @@
 (* P_C19 — Leading-term queries, decomposition and constants match the polynomial. *)
 From mathcomp Require Import all_ssreflect all_algebra.
 From SsrMultinomials Require Import mpoly.
-From NP Require Import Base Poly Order Compare Query OrderP Abs Align QueryP Clean SetDimP Proxy ProxyP GenQuery BridgeQuery.
+From NP Require Import Base Poly Order Compare Query OrderP Abs Align QueryP Clean SetDimP Proxy ProxyP ProxyAxis ProxyAxisP GenQuery BridgeQuery.
 Set Implicit Arguments. Unset Strict Implicit. Unset Printing Implicit Defensive.
 Import GRing.Theory.
 Local Open Scope ring_scope.
@@ -157,6 +157,65 @@ by split; [exact: pargmin_lt | exact: pargmax_lt].
 Qed.
 End Extremes.
 
+(* the same four functions ALONG AN AXIS work lane by lane: for EVERY lane (a non-empty list of distinct flat positions,
+   whatever the shape and the axis), argmin / argmax return the place in the lane of the element with the smallest /
+   largest (leading exponent, leading coefficient), the FIRST of several equal ones, and amin / amax return the element at
+   the lane's place of smallest / largest rank (amax: the LAST of several equal ones) *)
+Section Axis.
+Variable R : realDomainType.
+Variables (g r : bool) (p : parr R) (lane : seq nat).
+Hypothesis wp : wfb p.
+Hypothesis inl : all (fun i => (i < psize p)%N) lane.
+Hypothesis ul : uniq lane.
+Hypothesis ne : lane != [::].
+Let res := sortable_proxy g r p.
+Let amin := lane_argmin res lane.
+Let amax := lane_argmax (rproxy g r p) lane.
+
+Theorem C19_axis_positions_exist : (amin < size lane)%N /\ (amax < size lane)%N.
+Proof. by split; [exact: argmin_axis_lt | exact: argmax_axis_lt]. Qed.
+
+Theorem C19_argmin_axis t k0 k : (t < size lane)%N -> t != amin ->
+  lead_index g r p (nth 0%N lane amin) = Some k0 -> lead_index g r p (nth 0%N lane t) = Some k ->
+  if k0 == k
+  then (cell (cols p) k0 (nth 0%N lane amin) < cell (cols p) k0 (nth 0%N lane t))
+       || ((cell (cols p) k0 (nth 0%N lane amin) == cell (cols p) k0 (nth 0%N lane t))
+           && (nth 0%N lane amin < nth 0%N lane t)%N)
+  else mleq g r (nth [::] (rows p) k0) (nth [::] (rows p) k).
+Proof. exact: argmin_axis_spec. Qed.
+
+Theorem C19_argmax_axis t k1 k : (t < size lane)%N -> t != amax ->
+  lead_index g r p (nth 0%N lane amax) = Some k1 -> lead_index g r p (nth 0%N lane t) = Some k ->
+  if k == k1
+  then (cell (cols p) k (nth 0%N lane t) < cell (cols p) k (nth 0%N lane amax))
+       || ((cell (cols p) k (nth 0%N lane t) == cell (cols p) k (nth 0%N lane amax))
+           && (nth 0%N lane amax < nth 0%N lane t)%N)
+  else mleq g r (nth [::] (rows p) k) (nth [::] (rows p) k1).
+Proof. exact: argmax_axis_spec. Qed.
+
+Theorem C19_amin_axis_is_the_argmin_element :
+  index (mins (lane_vals res lane)) res = nth 0%N lane amin.
+Proof. exact: amin_axis_pos. Qed.
+
+Theorem C19_amax_axis t k1 k : let a := lane_argmax res lane in
+  index (maxs (lane_vals res lane)) res = nth 0%N lane a /\
+  ((t < size lane)%N -> t != a ->
+   lead_index g r p (nth 0%N lane a) = Some k1 -> lead_index g r p (nth 0%N lane t) = Some k ->
+   if k == k1
+   then (cell (cols p) k (nth 0%N lane t) < cell (cols p) k (nth 0%N lane a))
+        || ((cell (cols p) k (nth 0%N lane t) == cell (cols p) k (nth 0%N lane a))
+            && (nth 0%N lane t < nth 0%N lane a)%N)
+   else mleq g r (nth [::] (rows p) k) (nth [::] (rows p) k1)).
+Proof. by move=> a; split; [exact: amax_axis_pos | exact: amax_axis_spec]. Qed.
+End Axis.
+
+(* the hypotheses are satisfiable: the second column of a 2x2 array, along axis 0 *)
+Example C19_axis_example :
+  let p := Parr [:: 0%N] [:: 2; 2]%N [:: [:: 0%N]; [:: 1%N]] [:: [:: 3; 1; 0; 2]; [:: 0; 2; 5; 2]] : parr [realDomainType of int] in
+  [/\ wfb p, pargmin_axis true false p [:: [:: 0; 2]; [:: 1; 3]]%N = [:: 0; 0]%N
+     & pargmax_axis true false p [:: [:: 0; 2]; [:: 1; 3]]%N = [:: 1; 0]%N].
+Proof. by split; vm_compute. Qed.
+
 (* the sources these models were written from are still the modelled ones, statement by statement *)
 Theorem C19_sources_are_the_modelled_ones :
   all (all id) gen_query_facts /\ [seq size f | f <- gen_query_facts] = [:: 7; 6; 7; 3; 5; 2; 4; 4; 8; 8; 5]%N.
@@ -184,3 +243,8 @@ Print Assumptions C19_argmin.
 Print Assumptions C19_argmax.
 Print Assumptions C19_amax.
 Print Assumptions C19_extreme_positions_exist.
+Print Assumptions C19_axis_positions_exist.
+Print Assumptions C19_argmin_axis.
+Print Assumptions C19_argmax_axis.
+Print Assumptions C19_amin_axis_is_the_argmin_element.
+Print Assumptions C19_amax_axis.
